@@ -418,6 +418,8 @@ class Check:
                         self.known_hits.append(kf)
                     return True
         self.violations.append(replay)
+        if os.environ.get("VERIF_DEBUG"):
+            log(f"[{self.pid}] violation: {str(replay.get('why'))[:260]}")
         return False
 
     def finish(self):
